@@ -217,6 +217,9 @@ func gen(r *rand.Rand, tier string, n int) []any {
 		}
 		// a Next/Seek program over the time span of the series
 		lo, hi := in.Samples[0].T, in.Samples[len(in.Samples)-1].T
+		if hi < lo { // ill-formed (unsorted) series
+			hi = lo
+		}
 		for k := r.Intn(8); k >= 0; k-- {
 			if r.Intn(3) == 0 {
 				in.Prog = append(in.Prog, opIn{})
@@ -231,6 +234,6 @@ func gen(r *rand.Rand, tier string, n int) []any {
 }
 
 func main() {
-	common.Main(common.Prop{ID: "C37", Facts: facts, Gen: gen, Run: run, QuickN: 110, ThoroughN: 1200,
+	common.Main(common.Prop{ID: "C37", Facts: facts, Gen: gen, Run: run, QuickN: 110, ThoroughN: 800,
 		Preamble: "From Verif Require Import Lib.Downsample_Core Lib.Downsample_Aggr.\nOpen Scope Z_scope.\n"})
 }
